@@ -812,6 +812,15 @@ def fam_c19(R, n_random):
         add(enum(['#[logos(subpattern wb = %s)]' % rust_str('a' + look)], ['#[regex("(?&wb)c?")] A,']), 'reject', None, 'unsupported regex feature (Unicode word boundary in a subpattern)')
         add(enum(['#[logos(skip(%s))]' % rust_str('q+' + look)], ['#[token("b")] B,']), 'reject', None, 'unsupported regex feature (Unicode word boundary in a skip)')
     add(enum([], ['#[regex("a{1001}{1001}{1001}")] A,']), 'reject', None, 'huge repetition (resource exhaustion)')
+    # `type` items defined in terms of their own parameter, directly or through another one: substituting them never ends
+    # (run in a process of their own like the resource exhaustion case); a nested but acyclic one must simply not crash
+    gen = lambda items, head, variants: '\n'.join([HDR, '#[logos(%s)]' % ', '.join(items), head + ' {'] + ['    ' + v for v in variants] + ['}'])
+    add(gen(['type T = Vec<T>'], 'pub enum T0<T>', ['#[token("a", |_| Vec::new())] A(T),']), 'reject', None, 'type item referring to its own parameter (resource exhaustion)')
+    add(gen(['type T = Vec<U>', 'type U = Option<T>'], 'pub enum T0<T, U>', ['#[token("a", |_| Vec::new())] A(T),', '#[token("b", |_| None)] B(U),']), 'reject', None,
+        'type items referring to each other (resource exhaustion)')
+    add(gen(['type T = Option<&\'static T>'], 'pub enum T0<T>', ['#[token("a", |_| None)] A(T),']), 'reject', None, 'type item referring to its own parameter behind a reference (resource exhaustion)')
+    add(gen(['type T = Vec<U>', 'type U = u8'], 'pub enum T0<T, U>', ['#[token("a", |_| Vec::new())] A(T),', '#[token("b", |_| 0u8)] B(U),']), 'any', None,
+        'type item referring to another, acyclic (resource exhaustion)')
     for p in ['(?&nope)', 'a(?&b)']:
         add(enum([], ['#[regex(%s)] A,' % rust_str(p)]), 'reject', 'undef_subpattern')
     # byte-string literals around the ASCII / non-ASCII border, through every path that turns the literal into regex text
